@@ -129,28 +129,52 @@ def k_pair(ctx, cases):
 
 
 def k_dtype(ctx, cases):
-	"""dtype acceptance of the wrapper"""
-	from gambit.metric import jaccarddist
+	"""dtype acceptance of the wrapper: every call either returns the exact value or raises; native
+	16/32/64-bit signed/unsigned integers must be accepted, everything else (other widths, other
+	kinds, non-native byte order) must not silently give a different number"""
+	from gambit.metric import jaccarddist, jaccard, jaccarddist_array
+	A = [1, 2, 3, 256, 300, 1000]
+	B = [2, 3, 4, 256, 300, 1001, 4000]
+	s, u = len(set(A) ^ set(B)), len(set(A) | set(B))
+	want = round_ratio_f32(s, u)
 	for c in cases:
 		dt = np.dtype(c['dtype'])
 		ctx.case(c, nontrivial=True)
-		a = np.zeros(3, dtype=dt) if dt.kind not in 'iu' else np.arange(3, dtype=dt)
-		ok_expected = dt.kind in 'iu' and dt.itemsize in (2, 4, 8)
-		for args in ((a, np.arange(2, dtype='u2')), (np.arange(2, dtype='u2'), a)):
-			try:
-				jaccarddist(*args)
-				ok = True
-			except ValueError:
-				ok = False
-			except Exception as e:  # wrong error class
-				ok = repr(e)
-			if ok is not ok_expected:
-				ctx.violation('dtype', c, f'dtype {dt} accepted={ok}, expected accepted={ok_expected}', impl=ok)
+		native_int = dt.kind in 'iu' and dt.isnative
+		ok_expected = native_int and dt.itemsize in (2, 4, 8)
+		try:
+			a = np.array(A, dtype=dt)
+			b = np.array(B, dtype=dt)
+		except Exception:
+			continue
+		exact_values = dt.kind in 'iuf' and [int(x) for x in a.tolist()] == A and [int(x) for x in b.tolist()] == B
+		for other in ('u2', 'i4', 'u8'):
+			calls = [('jaccarddist(x,native)', lambda: f32_bits(jaccarddist(a, np.array(B, dtype=other)))),
+			         ('jaccarddist(native,x)', lambda: f32_bits(jaccarddist(np.array(A, dtype=other), b))),
+			         ('jaccarddist_array(x,[native])', lambda: f32_bits(jaccarddist_array(a, [np.array(B, dtype=other)])[0])),
+			         ('jaccarddist_array(native,[x])', lambda: f32_bits(jaccarddist_array(np.array(A, dtype=other), [b])[0]))]
+			for name, fn in calls:
+				try:
+					r = fn()
+					ok = True
+				except Exception as e:
+					r = type(e).__name__
+					ok = False
+				if ok and exact_values and r != want:
+					ctx.violation('dtype', c, f'{name} with dtype {dt.str} (other side {other}) silently returned bits {r}, '
+					              f'the distance of the values is {s}/{u} -> bits {want}', impl=r, spec=want)
+				elif ok_expected and not ok:
+					ctx.violation('dtype', c, f'{name} with dtype {dt.str} raised {r}; 16/32/64-bit native integers must be accepted', impl=r)
 		if ctx.model_ok:
-			kind = {'u': 0, 'i': 1}.get(dt.kind, 2)
+			kind = {'u': 0, 'i': 1}.get(dt.kind, 2) if dt.isnative else 2
 			m = ctx.model([(205, [kind, dt.itemsize, [0, 1, 2], 0, 2, [0, 1]])])[0]
-			if (m[0] == 0) != ok_expected:
-				ctx.broke('correspondence dtype', f'{dt}: model {m}')
+			try:
+				jaccarddist(np.zeros(3, dtype=dt) if dt.kind not in 'iu' else np.arange(3, dtype=dt), np.arange(2, dtype='u2'))
+				acc = True
+			except Exception:
+				acc = False
+			if (m[0] == 0) != acc and not (acc and not ok_expected):
+				ctx.broke('correspondence dtype', f'{dt.str}: model {m}, implementation accepted={acc}')
 
 
 def k_big(ctx, cases):
@@ -243,7 +267,8 @@ def generate(ctx):
 		ctx.count('stream:random-' + shape)
 		yield 'pair', dict(a=list(A), b=list(B), da=da, db=db)
 	# dtype acceptance (malformed stream)
-	for dt in ['u1', 'i1', 'u2', 'i2', 'u4', 'i4', 'u8', 'i8', 'f4', 'f8', 'bool', 'c8', 'S1', 'O', '>u2' if False else 'u2']:
+	for dt in ['u1', 'i1', 'u2', 'i2', 'u4', 'i4', 'u8', 'i8', 'f2', 'f4', 'f8', 'bool', 'c8', 'S1', 'O',
+	           '>u2', '>i2', '>u4', '>i4', '>u8', '>i8', '<u2', '<i4', '=u8']:
 		ctx.count('stream:malformed-dtype')
 		yield 'dtype', dict(dtype=dt)
 	yield 'big', dict(name='union_exactly_2p24')
